@@ -37,7 +37,7 @@ Definition add_op (a b : value) : Res obj :=
   | VInt x, VInt y => do r <- i32_arith ovf (s_add sem) "native_function_call.rs:574" (x + y); ok_val (VInt r)
   | VFloat x, VFloat y => ok_val (VFloat (f32_add x y))
   | VString x, VString y => ok_val (mk_string (x ++ y))
-  | VList x, VList y => ok_val (VList (list_union x y))
+  | VList x, VList y => ok_val (VList (list_union origin_copy_now x y))
   | _, _ => not_available
   end.
 
@@ -45,7 +45,7 @@ Definition subtract_op (a b : value) : Res obj :=
   match a, b with
   | VInt x, VInt y => do r <- i32_arith ovf (s_sub sem) "native_function_call.rs:548" (x - y); ok_val (VInt r)
   | VFloat x, VFloat y => ok_val (VFloat (f32_sub x y))
-  | VList x, VList y => ok_val (VList (list_without x y))
+  | VList x, VList y => ok_val (VList (list_without origin_copy_now x y))
   | _, _ => not_available
   end.
 
@@ -362,7 +362,7 @@ Definition list_from_int_cmd (defs : listdefs) (o_int o_name : obj) : Res value 
 (* ListRange on the three popped objects (max first, then min, then the list) *)
 Definition list_range_cmd (o_max o_min o_list : obj) : Res value :=
   match obj_list o_list, o_min, o_max with
-  | Some l, OVal vmin, OVal vmax => Ok (VList (list_with_sub_range oo l vmin vmax))
+  | Some l, OVal vmin, OVal vmax => Ok (VList (list_with_sub_range oo origin_copy_now l vmin vmax))
   | _, _, _ => Err InvalidState (T "Expected List, minimum and maximum for LIST_RANGE")
   end.
 
@@ -454,4 +454,4 @@ Definition call_native (fo : float_oracle) (defs : listdefs) : nop -> list obj -
 Definition list_from_int : listdefs -> Z -> text -> Res value := list_from_int_o ord_id.
 Definition list_random_pick : listdefs -> inklist -> Z -> Res inklist := list_random_pick_o ord_id.
 Definition list_random (ovf : bool) (rng : Z -> Z) := list_random_o ord_id int_sem_now ovf rng.
-Definition list_range : inklist -> value -> value -> inklist := list_with_sub_range ord_id.
+Definition list_range : inklist -> value -> value -> inklist := list_with_sub_range ord_id origin_copy_now.
